@@ -83,6 +83,47 @@ func RunSerial(b *abs.Built, dir string, seed int64, nclients, ncalls int) (*Ser
 	var mu sync.Mutex
 	var wg sync.WaitGroup
 	var firstErr error
+	// in every other run the first monitor is slow to acknowledge, which keeps transactions in flight
+	if seed%2 == 0 && len(in.Mons) > 0 {
+		in.Mons[0].AckDelay = time.Duration(100+rnd.Intn(900)) * time.Microsecond
+	}
+	// monitors established while the clients run: what such a monitor is told at first plus what it is told
+	// afterwards must be one state of the serial order and the changes made after it
+	type lateMon struct {
+		inv, ret int64
+		init     map[string]interface{}
+	}
+	late := map[string]lateMon{}
+	nlate := 1 + rnd.Intn(2)
+	lateSeed := rnd.Int63()
+	wg.Add(1)
+	go func() {
+		defer wg.Done()
+		r := rand.New(rand.NewSource(lateSeed))
+		for k := 0; k < nlate; k++ {
+			time.Sleep(time.Duration(200+r.Intn(3000)) * time.Microsecond)
+			method := []string{"monitor_cond_since", "monitor_cond", "monitor"}[r.Intn(3)]
+			req := map[string]interface{}{}
+			for _, t := range b.Abs.TableNames() {
+				cols := []interface{}{}
+				for _, c := range b.Abs.Tables[t].ColNames() {
+					cols = append(cols, c)
+				}
+				req[t] = map[string]interface{}{"columns": cols, "initial": true, "insert": true, "delete": true, "modify": true}
+			}
+			id := fmt.Sprintf("\"late%d\"", k)
+			inv := atomic.AddInt64(&clock, 1)
+			_, init, err := in.AddMonitor(id, method, req)
+			ret := atomic.AddInt64(&clock, 1)
+			mu.Lock()
+			if err != nil {
+				firstErr = fmt.Errorf("late monitor: %v", err)
+			} else {
+				late[id] = lateMon{inv: inv, ret: ret, init: init}
+			}
+			mu.Unlock()
+		}
+	}()
 	old := runtime.GOMAXPROCS(1 + rnd.Intn(8))
 	defer runtime.GOMAXPROCS(old)
 	for c := 0; c < nclients; c++ {
@@ -211,7 +252,12 @@ func RunSerial(b *abs.Built, dir string, seed int64, nclients, ncalls int) (*Ser
 		if len(errs) > 0 {
 			return nil, fmt.Errorf("monitor %s: %v", m.ID, errs)
 		}
-		tr.Mons = append(tr.Mons, map[string]interface{}{"mon": m.ID, "enc": m.Enc, "req": m.Req, "msgs": msgs})
+		ev := map[string]interface{}{"mon": m.ID, "enc": m.Enc, "req": m.Req, "msgs": msgs, "late": false, "inv": 0, "ret": 0,
+			"init": map[string]interface{}{}}
+		if l, ok := late[m.ID]; ok {
+			ev["late"], ev["inv"], ev["ret"], ev["init"] = true, l.inv, l.ret, l.init
+		}
+		tr.Mons = append(tr.Mons, ev)
 	}
 	return tr, nil
 }
